@@ -444,3 +444,13 @@ func sortedKeys(m map[string]int) []string {
 func isUserCodeOp(op string) bool {
 	return strings.HasPrefix(op, "log:") || strings.HasPrefix(op, "metric:") || strings.HasPrefix(op, "health:")
 }
+
+// heldAt: a user-code call of the instance was being held by the harness at virtual time vt.
+func (v *View) heldAt(inst string, vt time.Duration) bool {
+	for _, h := range v.holds {
+		if h.Inst == inst && vt >= h.VT && vt <= h.VT+time.Duration(h.N) {
+			return true
+		}
+	}
+	return false
+}
